@@ -402,7 +402,7 @@ def site_corpus():
     out = []
     files = site(SITE_FILES)
     for base in (0, 1):
-        # rule chosen by the path as spelled, file read from the resolved path (fixed: 43f721b)
+        # rule chosen by the path as spelled, file read from the resolved path (fixed: 673b91a)
         out.append((cfg(base, True, SITE_RULES, [(b"/api/x", 2)], True, files),
                     [req(b"GET", b"/api/secret.json", origin=EVIL), req(b"GET", b"/%61pi/secret.json", origin=EVIL),
                      req(b"GET", b"/api%2Fsecret.json", origin=EVIL), req(b"GET", b"/api%2fsecret.json", origin=b"https://icelk.dev"),
@@ -420,7 +420,7 @@ def site_corpus():
                      req(b"GET", b"/my%20files/x%20y.txt")]))
         out.append((cfg(base, True, [rule(b"/my files/*", [b"https://icelk.dev"]), rule(b"/*", allow_all=True)], [], True, files),
                     [req(b"GET", b"/my%20files/x%20y.txt", origin=EVIL), req(b"GET", b"/my%20files/x%20y.txt", origin=b"https://icelk.dev")]))
-        # the refusal under a status filter that caches everything (fixed: 8cf6420)
+        # the refusal under a status filter that caches everything (fixed: d00feae)
         out.append((cfg(base, True, SITE_RULES, [(b"/api/x", 2)], True, site(flags=1)),
                     [req(b"GET", b"/api/x", origin=EVIL), req(b"GET", b"/api/x"), req(b"GET", b"/api/x", origin=b"https://icelk.dev"), clear(),
                      req(b"OPTIONS", b"/api/x", origin=EVIL, extra=PRE), req(b"GET", b"/api/x"), req(b"HEAD", b"/api/x", origin=EVIL), req(b"HEAD", b"/api/x")]))
@@ -439,7 +439,7 @@ def site_corpus():
                      req(b"GET", b"/api/x", b"localhost:8080", origin=b"https://localhost"), req(b"GET", b"/%61pi/secret.json", origin=EVIL),
                      req(b"OPTIONS", b"/api/x", origin=b"https://localhost", extra=PRE), req(b"OPTIONS", b"/api/x", origin=b"http://localhost", extra=PRE),
                      req(b"COPY", b"/fn/a", origin=EVIL), req(b"GET", b"/api/x")]))
-    # the former known class (fixed: 9dff57d): a path rewritten by uri_redirect after the CORS gate
+    # the former known class (fixed: 8f77d7d): a path rewritten by uri_redirect after the CORS gate
     kr = [rule(b"/api/index.html", allow_all=True), rule(b"/img/", [b"https://icelk.dev"], methods=[b"PUT"], headers=[b"x-token"], ms=1500)]
     out.append((cfg(0, True, kr, CORPUS_HANDLERS, True, files),
                 [req(b"GET", b"/api/", origin=EVIL), req(b"GET", b"/img/", origin=b"https://icelk.dev"),
